@@ -132,15 +132,8 @@ func TestPropHammer(t *testing.T) {
 		var violations []hammerViolation
 		var panics []any
 
-		ctl.mu.Lock()
-		ctl.delays = delays
-		ctl.arrivals = 0
-		ctl.mu.Unlock()
-		defer func() {
-			ctl.mu.Lock()
-			ctl.delays = nil
-			ctl.mu.Unlock()
-		}()
+		setDelays(delays)
+		defer setDelays(nil)
 
 		const readers = 8
 		var ready, wg sync.WaitGroup
@@ -224,9 +217,7 @@ func TestPropHammer(t *testing.T) {
 		}
 		stop.Store(true)
 		wg.Wait()
-		ctl.mu.Lock()
-		ctl.delays = nil
-		ctl.mu.Unlock()
+		setDelays(nil)
 
 		if len(panics) > 0 {
 			t.Fatalf("reader panicked: %v", panics[0])
